@@ -38,6 +38,16 @@ func init() {
 	}
 }
 
+// safeUnmarshal: a decoder that panics on some document is a violation, not a harness crash.
+func safeUnmarshal(data []byte, v any) (err error) {
+	defer func() {
+		if r := recover(); r != nil {
+			err = fmt.Errorf("PANIC in decoder: %v", r)
+		}
+	}()
+	return json.Unmarshal(data, v)
+}
+
 var (
 	reDec = regexp.MustCompile(`^(0|[1-9][0-9]*)$`)
 	reHex = regexp.MustCompile(`^0x[0-9a-f]+$`)
@@ -106,7 +116,7 @@ func c16Decode(cs *c16Case) (key, msg string) {
 	var idx uint32
 	if cs.Mode == "insertion" {
 		var p prover.InsertionParameters
-		err = json.Unmarshal([]byte(cs.Doc), &p)
+		err = safeUnmarshal([]byte(cs.Doc), &p)
 		if err == nil {
 			switch field {
 			case 0:
@@ -125,7 +135,7 @@ func c16Decode(cs *c16Case) (key, msg string) {
 		}
 	} else {
 		var p prover.DeletionParameters
-		err = json.Unmarshal([]byte(cs.Doc), &p)
+		err = safeUnmarshal([]byte(cs.Doc), &p)
 		if err == nil {
 			switch field {
 			case 0:
@@ -142,6 +152,9 @@ func c16Decode(cs *c16Case) (key, msg string) {
 				got = &p.MerkleProofs[0][0]
 			}
 		}
+	}
+	if err != nil && strings.HasPrefix(err.Error(), "PANIC") {
+		return fmt.Sprintf("decoder-panic|%s|%s", cs.Mode, cs.Path), fmt.Sprintf("decoding %s=%q: %v", cs.Path, cs.S, err)
 	}
 	switch cs.Kind {
 	case "str":
@@ -251,7 +264,7 @@ func c16Body(c *ev.Ctx) {
 						js, err := json.Marshal(&ins)
 						var back prover.InsertionParameters
 						if err == nil {
-							err = json.Unmarshal(js, &back)
+							err = safeUnmarshal(js, &back)
 						}
 						ok := err == nil && eq(&back.InputHash, &ins.InputHash) && back.StartIndex == ins.StartIndex && eq(&back.PreRoot, &ins.PreRoot) && eq(&back.PostRoot, &ins.PostRoot) && len(back.IdComms) == len(ins.IdComms) && len(back.MerkleProofs) == len(ins.MerkleProofs)
 						for i := 0; ok && i < len(ins.IdComms); i++ {
@@ -273,7 +286,7 @@ func c16Body(c *ev.Ctx) {
 						js, err = json.Marshal(&del)
 						var dback prover.DeletionParameters
 						if err == nil {
-							err = json.Unmarshal(js, &dback)
+							err = safeUnmarshal(js, &dback)
 						}
 						ok = err == nil && eq(&dback.InputHash, &del.InputHash) && eq(&dback.PreRoot, &del.PreRoot) && eq(&dback.PostRoot, &del.PostRoot) && len(dback.IdComms) == len(del.IdComms) && len(dback.MerkleProofs) == len(del.MerkleProofs) && len(dback.DeletionIndices) == len(del.DeletionIndices)
 						for i := 0; ok && i < len(del.IdComms); i++ {
